@@ -51,7 +51,7 @@ const (
 
 func nCases(tier string) int {
 	if tier == "thorough" {
-		return len(fixedCases()) + cycle*8000
+		return len(fixedCases()) + cycle*5000
 	}
 	return len(fixedCases()) + cycle*500
 }
@@ -328,7 +328,6 @@ func probeAll(scope *slip.Scope, c Case) []string {
 	case "defmacro":
 		for _, p := range c.Probes {
 			run("(" + c.Name + " " + p + ")")
-			run("(macroexpand-1 '(" + c.Name + " " + p + "))")
 		}
 	default:
 		for _, p := range c.Probes {
